@@ -769,7 +769,13 @@ class DistributedShampoo(torch.optim.Optimizer):
                 shampoo_norm_list = torch._foreach_norm(
                     masked_blocked_search_directions
                 )
-                torch._foreach_add_(shampoo_norm_list, 1e-16)
+                # NOTE: 1e-16 underflows to 0 in float16; use the smallest positive value of the dtype there so that a
+                # zero direction gives 0 / tiny = 0 instead of 0 / 0 = NaN.
+                norm_dtype_info = torch.finfo(shampoo_norm_list[0].dtype)
+                torch._foreach_add_(
+                    shampoo_norm_list,
+                    max(1e-16, norm_dtype_info.tiny * norm_dtype_info.eps),
+                )
                 torch._foreach_div_(grafting_norm_list, shampoo_norm_list)
                 torch._foreach_mul_(
                     masked_blocked_search_directions, grafting_norm_list
